@@ -11,3 +11,20 @@ for variant, qt, seed in (('state', 'State', '{q}'), ('set', 'Set[State]', 'q'))
              ensures=['result == Eclo(N, seed0)'],
              ghost={'seed0': seed}, loops=_ECLO_LOOP,
              theories=['word', 'nfa'], props=['C01', 'C03', 'C19'])
+
+contract(M, '_nfa_cache', {'N': 'NFA'}, returns='(Map[State,Set[State]], Map[(State,Symbol),Set[State],default=set])',
+         requires=['nfa_wf(N)'],
+         ensures=['all(q in result[0] for q in N.Q)',
+                  'all(result[0][q] == Eclo(N, {q}) for q in N.Q)',
+                  'all(lookup(result[1], (q, a)) == Eclo(N, step(N, q, a)) for q in atoms() for a in atoms())'],
+         types={'Eq': 'Map[State,Set[State]]', 'Eqa': 'Map[(State,Symbol),Set[State],default=set]'},
+         loops={1: {'invariant': ['all(q in Eq for q in done)', 'all(Eq[q] == Eclo(N, {q}) for q in done)']},
+                2: {'invariant': ['all(((q, a) in Eqa) == ((q, a) in done) for q in atoms() for a in atoms())',
+                                  'all(Eqa[(q, a)] == Eclo(N, step(N, q, a)) for (q, a) in done)']}},
+         theories=['word', 'nfa'], props=['C01', 'C02', 'C19'])
+
+contract(M, 'nfa_accepts_word', {'N': 'NFA', 'word': 'Word'}, returns='Bool',
+         requires=['nfa_wf(N)', 'over(N.Sigma, word)'],
+         ensures=['result == nfa_accepts(N, word)'],
+         loops={1: {'invariant': ['q == Nhat(N, prefix)']}},
+         theories=['word', 'nfa'], props=['C01', 'C19'])
